@@ -233,7 +233,10 @@ fn c02_judge(case: &Case, run: &Run, an: &Analysis, stats: &mut Stats) -> CheckR
       // Only when every build of the probed session returned: a root whose build aborted never completed, so requiring
       // it again legitimately executes it (and tasks below it) again.
       let original_aborted = b.session > 0 && run.sessions[b.session - 1].builds.iter().any(|x| matches!(x.result, engine::BuildResult::Panic(_)));
-      if b.panic.is_none() && !original_aborted && !b.executed.is_empty() {
+      // While checker faults are armed, a failing check legitimately forces re-execution in every session.
+      let faults_armed = !run.sessions[b.session].faults.is_empty();
+      if faults_armed { stats.class("probe_not_judged_while_checker_faults_are_armed"); }
+      if b.panic.is_none() && !original_aborted && !faults_armed && !b.executed.is_empty() {
         return Err(Failure::new(format!("[I4-idempotence] session {}: requiring T{} again with nothing changed executed {:?}", b.session, t, b.executed)));
       }
     }
@@ -243,7 +246,13 @@ fn c02_judge(case: &Case, run: &Run, an: &Analysis, stats: &mut Stats) -> CheckR
   Ok(())
 }
 
-fn c02_cfg(t: Tier) -> GenCfg { c01_cfg(t) }
+fn c02_cfg(t: Tier) -> GenCfg {
+  let mut c = c01_cfg(t);
+  // A checker error is an inconsistency reported by the dependency's own checker: validation must stop there too.
+  c.faulty = true;
+  c.fault_steps = true;
+  c
+}
 
 pub const C02: Spec = Spec {
   prop: "C02",
